@@ -240,3 +240,38 @@ theorem write_eq (reg : Registry) (r : Record) (p : Bytes) (ho : r.origin = .res
     · simp [OriginV.len, OriginV.text, hL, hhead, hnew, htt, hpos, Bind.bind, Except.bind, pure, Except.pure, List.append_assoc]
 
 end Gts.GenBank
+
+namespace Gts.GenBank
+open Gts.Pars
+
+theorem startsField_end (rest : Bytes) : startsField (bs "//\n" ++ rest) = true := by
+  simp [startsField, refStop, refAltList, bs, List.isPrefixOf]
+
+/-- the loop over: header sections, an optional middle section (the feature table), tail sections,
+the terminator -/
+theorem parse_chain (L : Int) (A B : List Section) (hA : ∀ x ∈ A, SecOK L x) (hB : ∀ x ∈ B, SecOK L x)
+    (mid : Bytes) (midIters : Nat) (s0 sM : Sub) (rest' : Bytes) (fuel : Nat)
+    (hmidStart : ∀ rest, startsField rest = true → startsField (mid ++ rest) = true)
+    (hmid : ∀ k rest, startsField rest = true →
+      recordLoop L 12 (k + midIters) (secsAct A s0) ⟨mid ++ rest, []⟩ = recordLoop L 12 k sM ⟨rest, []⟩)
+    (hfuel : secsIters A + midIters + secsIters B + 1 ≤ fuel) :
+    recordLoop L 12 fuel s0 ⟨secsText A ++ (mid ++ (secsText B ++ (bs "//\n" ++ rest'))), []⟩ =
+      (.ok (secsAct B sM), ⟨rest', []⟩) := by
+  obtain ⟨K, hK⟩ : ∃ K, fuel = (((K + 1) + secsIters B) + midIters) + secsIters A :=
+    ⟨fuel - (secsIters A + midIters + secsIters B + 1), by omega⟩
+  have h3 := startsField_end rest'
+  have h2 := secsText_starts L B hB _ h3
+  have h1 := hmidStart _ h2
+  rw [hK, loop_sections L A hA _ s0 _ h1, hmid _ _ h2, loop_sections L B hB _ sM _ h3, loop_end]
+
+theorem asTopology_text (t : Int) (h : t = 0 ∨ t = 1) : asTopology (topologyText t) = some t := by
+  rcases h with rfl | rfl <;> decide
+
+/-- the record that comes back: the REGION suffix in the accession (K1A), the species as wrapped
+(K1C), toggle values as `\n` (K1D, inside `readFeature`), the residues as the formatted block -/
+def readBack (reg : Registry) (r : Record) (p : Bytes) : Record :=
+  ⟨{ r.fields with accession := accessionLine r.fields, species := wrapSpace r.fields.species, region := none },
+   r.table.map (readFeature reg),
+   if p.isEmpty then .buffer [] else .buffer (Origin.originStream p)⟩
+
+end Gts.GenBank
